@@ -1,7 +1,7 @@
 #![allow(non_camel_case_types, non_snake_case, dead_code)]
 #[tarpc::service]
 pub trait Rej32 {
-    async fn b(ctx: tarpc::context::Context);
-    async fn a_b_(ctx: tarpc::context::Context) -> String;
+    async fn b(ctx: tarpc::context::Context) -> i32;
+    async fn aB(a0: i32);
 }
 fn main() {}
